@@ -5,6 +5,7 @@ import NgoVerif.Proofs.C11check
 import NgoVerif.Proofs.C16stm
 import NgoVerif.Proofs.C05sem
 import NgoVerif.Proofs.C10multi
+import NgoVerif.Proofs.C20dom
 /-!
 # Driver ops that evaluate the *side conditions of the end-to-end theorems* on what the real passes did
 
@@ -19,6 +20,7 @@ import NgoVerif.Proofs.C10multi
   `Proofs.C10stm.dupCheck` for the FIRST place of use of a literal set factored out by `duplication`.
 * `(sem_dup_all <canonical aux rule> ((<rule before> <rule after>) …) <context>)` → `(ok <some place> <every placeCheck> <ctxAvoidsCheck> <aux rule> ((<before> <after>) …))`:
   `Proofs.C10multi.placeCheck` for ALL places of use of one factored literal set (hypotheses of `C10_factor_all_*`).
+* `(sem_dom_cond <prog> ((("p" n) "dom") …))` → `(ok <coveredCheck>)`: the hypothesis of `C20_domain_overapproximates`.
 * `(sem_okstm <stm>)` → `(ok <okBody>)`: the hypothesis of the `_partial` theorems about `expand_comparisons`.
 * `(sem_unused_cond <prog> "n" k)` → `(ok <every statement stmOk> <Unused n k prog>)`: the hypothesis of
   `C09_removal_sound/complete` for the program `unused` removed the rules of `n/k` from.
@@ -124,6 +126,13 @@ def handleSem : Sexp → Option Sexp
           | none => .list [.atom "unsupported", .str "shape of a place of use"]
         | none => .list [.atom "unsupported", .str "auxiliary head arguments are not variables"]
       | _, _ => .list [.atom "unsupported", .str "auxiliary rule / context"]
+  | .list [.atom "sem_dom_cond", p, .list ms] =>
+    -- `ms` = ((("p" n) "dom name") …): the hypothesis of `C20_domain_overapproximates` for the program `p`
+    some <| match Prog.ofSexp p, ms.mapM (fun x => match x with
+        | .list [.list [.str n, k], .str d] => k.toNat?.map fun k' => ((n, k'), d)
+        | _ => none) with
+      | some prg, some m => .list [.atom "ok", ofBool (Proofs.C20dom.coveredCheck m prg)]
+      | _, _ => .list [.atom "unsupported", .str "program / map"]
   | _ => none
 
 end NgoVerif
